@@ -1181,11 +1181,28 @@ func (env *Env) opaqueCall(sf *SpecFunc, args []Value, specPkg *types.Package) V
 		}
 		flat = append(flat, a.C...)
 	}
-	for _, k := range sf.foot {
-		if strings.HasPrefix(k, "G:") && eng.immutableGlobal[k] {
+	// footprint: the heap values the (fully unfolded) body reads for these arguments. A read at a location fixed by
+	// the arguments is passed as that value; a read under a quantifier (location depends on a bound variable) is
+	// passed as the whole array of its key. The function is thus stable under writes elsewhere.
+	reads := env.bodyReads(sf, args, specPkg)
+	wholeSeen := map[string]bool{}
+	argBounds := map[*Term]bool{}
+	for _, a := range flat {
+		collectBounds(a, argBounds, map[*Term]bool{})
+	}
+	for _, rd := range reads {
+		if strings.HasPrefix(rd.key, "G:") && eng.immutableGlobal[rd.key] {
 			continue
 		}
-		flat = append(flat, env.st.heap.Get(k, keySortReg[k]))
+		if rd.term != nil && boundsWithin(rd.term, argBounds) {
+			// location fixed by the arguments (which may themselves mention variables bound outside this call)
+			flat = append(flat, rd.term)
+			continue
+		}
+		if !wholeSeen[rd.key] {
+			wholeSeen[rd.key] = true
+			flat = append(flat, env.st.heap.Get(rd.key, keySortReg[rd.key]))
+		}
 	}
 	rt, err := eng.parseType(sf.Ret, specPkg)
 	if err != nil {
@@ -1197,6 +1214,67 @@ func (env *Env) opaqueCall(sf *SpecFunc, args []Value, specPkg *types.Package) V
 		out.C[j] = UF("spec."+sf.Name+c.Suffix, c.Sort, flat...)
 	}
 	return out
+}
+
+// collectBounds gathers the bound variables occurring free in t.
+func collectBounds(t *Term, out map[*Term]bool, seen map[*Term]bool) {
+	if seen[t] || !t.open {
+		return
+	}
+	seen[t] = true
+	if t.Op == "bound" {
+		out[t] = true
+		return
+	}
+	for _, a := range t.Args {
+		collectBounds(a, out, seen)
+	}
+}
+
+func boundsWithin(t *Term, allowed map[*Term]bool) bool {
+	if !t.open {
+		return true
+	}
+	bs := map[*Term]bool{}
+	collectBounds(t, bs, map[*Term]bool{})
+	for b := range bs {
+		if !allowed[b] {
+			return false
+		}
+	}
+	return true
+}
+
+type heapRead struct {
+	key  string
+	term *Term
+}
+
+// bodyReads compiles the unfolded body of sf for args in the current state and returns its heap reads in order.
+func (env *Env) bodyReads(sf *SpecFunc, args []Value, specPkg *types.Package) []heapRead {
+	ex := env.ex
+	savedLog, savedReveal, savedSpec := ex.readLog, ex.reveal, ex.inSpec
+	var log []heapRead
+	ex.readLog = &log
+	ex.reveal = ex.eng.allSpecsRevealed()
+	ex.inSpec++
+	savedAssumes := len(ex.assumes)
+	defer func() {
+		ex.readLog, ex.reveal, ex.inSpec = savedLog, savedReveal, savedSpec
+		ex.assumes = ex.assumes[:savedAssumes]
+	}()
+	inner := &Env{ex: ex, vars: map[string]Value{}, st: env.st, old: env.old, pkg: specPkg, depth: env.depth + 1, binders: env.binders}
+	for i, p := range sf.Params {
+		pt, err := ex.eng.parseType(p.Type, specPkg)
+		if err != nil {
+			cfail("spec %s: %v", sf.Name, err)
+		}
+		a := args[i]
+		a.T = pt
+		inner.vars[p.Name] = a
+	}
+	inner.compile(sf.Body, 0)
+	return log
 }
 
 // goCall evaluates a call of a real (side-effect free, loop-free) Go function symbolically on a copy of the state.
